@@ -434,7 +434,8 @@ def run_ascii(ctx):
 SPECS = ["A1", "B2", "C3"]
 KINDS_BAD = ["unknown-specifier", "unequal-heights", "unequal-xs", "unequal-mesh", "unequal-matmod", "cyclic-link",
              "unknown-link-target", "overlapping-solids", "solids-exceed-block", "duplicate-component", "duplicate-block-name",
-             "duplicate-specifier", "duplicate-grid-location", "conflicting-mult"]
+             "duplicate-specifier", "duplicate-grid-location", "conflicting-mult",
+             "matmod-bycomponent-long", "matmod-bycomponent-short", "matmod-both-bycomponent-long", "matmod-both-byblock-short"]
 BLOCK_WORDS = ["fuel", "shield", "reflector", "plenum", "duct", "control", "grid plate", "shield block", "load pad", "gap1"]
 NUCLIDE_FLAGS = """nuclide flags:
     U235: {burn: false, xs: true}
@@ -459,7 +460,7 @@ def gen_doc(rng, geom=None, force_pin=None):
     cart = geom == "cartesian"
     nbd = rng.randint(1, 3)
     blocks = {}
-    pingrids, blockgrid = {}, {}
+    pingrids, blockgrid, blockflags = {}, {}, {}
     # every assembly of a core must have the same outer dimensions (input checker): fixed per document
     ip = rng.randint(1200, 1600) / 100.0
     op = ip + rng.randint(30, 80) / 100.0
@@ -498,6 +499,16 @@ def gen_doc(rng, geom=None, force_pin=None):
             if has_inter:
                 comps["intercoolant"] = dict(shape="Hexagon", material="Sodium", Tinput=450.0, Thot=450.0,
                                              ip="duct.op", op=round(op + 0.2, 2), mult=1.0)
+        # explicit `flags:` entries REPLACE the flags derived from the name: rename the design so that its name carries a
+        # flag word (TEST / UPPER) that the explicit entry does not repeat; components likewise (bond -> gap, duct + structure)
+        if rng.random() < 0.35:
+            explicit = " ".join(w for w in name.split() if w.isalpha() and w not in ("lower", "upper", "inner", "outer")) or "fuel"
+            name = f"{rng.choice(['test', 'upper'])} {name}"
+            blockflags[name] = explicit
+        if rng.random() < 0.3:
+            comps["bond"]["flags"] = "gap"
+        if rng.random() < 0.3:
+            comps["duct"]["flags"] = "duct structure"
         blocks[name] = comps
         # pin lattice: the block names a grid, pin components name lattice ids and learn their multiplicity from it
         if geom == "hex" and (rng.random() < 0.4 or (force_pin and bi == 0)):
@@ -561,7 +572,7 @@ def gen_doc(rng, geom=None, force_pin=None):
         contents = {c: rng.choice(specs) for c in cells if (c == (0, 0) or rng.random() >= p)}
         use_map = rng.random() < 0.6
     return dict(blocks=blocks, assems=assems, contents=contents, geom=geom, symmetry=symmetry, use_map=use_map,
-                pingrids=pingrids, blockgrid=blockgrid)
+                pingrids=pingrids, blockgrid=blockgrid, blockflags=blockflags)
 
 
 def map_kind(doc):
@@ -593,6 +604,8 @@ def to_yaml(doc, text_map=None, mutate=None):
         out.append(f"    {bn}: &blk{bi}")
         if bn in doc.get("blockgrid", {}):
             out.append(f"        grid name: {doc['blockgrid'][bn]}")
+        if bn in doc.get("blockflags", {}):
+            out.append(f"        flags: {doc['blockflags'][bn]}")
         for cn, c in comps.items():
             out.append(f"        {cn}:")
             for k, v in c.items():
@@ -823,7 +836,8 @@ def check_reactor(ctx, doc, r, contents, tag, B):
                ",".join(ad["xs"]) + "] [" + ",".join(str(x) for x in ad["mesh"]) + "]",
                "[" + ",".join(f"{tilde(b.getType())}|{common.rat(b.getHeight())}|{b.p.xsType}|{int(b.p.axMesh)}" for b in a) + "]", c2)
         for b, bt in zip(a, ad["blocks"]):
-            B.send("flags [" + ",".join(known_flags()) + "] " + tilde(bt), "[" + ",".join(flag_words(b.p.flags)) + "]", {**c2, "type": bt})
+            B.send("flags [" + ",".join(known_flags()) + "] " + tilde(doc.get("blockflags", {}).get(bt, bt)),
+                   "[" + ",".join(flag_words(b.p.flags)) + "]", {**c2, "type": bt})
         z = Fraction(0)
         for k, (b, h, xs, bt) in enumerate(zip(a, ad["height"], ad["xs"], ad["blocks"])):
             c3 = {**c2, "block": k, "type": bt}
@@ -833,8 +847,18 @@ def check_reactor(ctx, doc, r, contents, tag, B):
             z += Fraction(h)
             if b.p.xsType != xs:
                 fail_few(ctx, "bp-xs-type", "blocks have the specified cross-section types", c3, observed=b.p.xsType, expected=xs)
-            if b.p.flags != flags_of_name(bt):
-                fail_few(ctx, "bp-block-flags", "blocks carry the flags named by their type", c3, observed=str(b.p.flags), expected=str(flags_of_name(bt)))
+            flagtext = doc.get("blockflags", {}).get(bt, bt)      # an explicit entry replaces the name
+            if b.p.flags != flags_of_name(flagtext):
+                fail_few(ctx, "bp-block-flags" + (":explicit-entry" if flagtext != bt else ""),
+                         "blocks carry the specified flags (an explicit `flags:` entry replaces the ones named by the type)", c3,
+                         observed=str(b.p.flags), expected=str(flags_of_name(flagtext)))
+            if flagtext != bt:
+                from armi.reactor.flags import Flags
+                for extra in (flags_of_name(bt) & ~flags_of_name(flagtext), ):
+                    if int(extra) and b in a.getBlocks(extra):
+                        fail_few(ctx, "bp-block-flags:explicit-entry", "a block is not found under a flag that only its name carries",
+                                 c3, observed=str(b.p.flags), expected=str(flags_of_name(flagtext)))
+                ctx.count("blocks with an explicit flags entry checked")
             comps = {cn: dict(cd) for cn, cd in doc["blocks"][bt].items()}
             by_name = {c.name: c for c in b}
             if bt in doc.get("blockgrid", {}):
@@ -888,6 +912,14 @@ def check_reactor(ctx, doc, r, contents, tag, B):
             for cn, cd in comps.items():
                 c = by_name[cn]
                 c4 = {**c3, "component": cn}
+                ctext = cd.get("flags", cn)
+                if c.p.flags != flags_of_name(ctext):
+                    fail_few(ctx, "bp-component-flags" + (":explicit-entry" if "flags" in cd else ""),
+                             "components carry the specified flags (an explicit entry replaces the ones named by the component)", c4,
+                             observed=str(c.p.flags), expected=str(flags_of_name(ctext)))
+                B.send("flags [" + ",".join(known_flags()) + "] " + tilde(ctext), "[" + ",".join(flag_words(c.p.flags)) + "]", c4)
+                if "flags" in cd:
+                    ctx.count("components with an explicit flags entry checked")
                 if type(c).__name__ != cd["shape"]:
                     fail_few(ctx, "bp-component-shape", "components have the specified shape", c4, observed=type(c).__name__, expected=cd["shape"])
                 if type(c.material).__name__ != cd["material"]:
@@ -1046,6 +1078,20 @@ def run_blueprints(ctx):
                 a["mesh"] = a["mesh"] + [1]
             elif kind == "unequal-matmod":
                 a["matmods"] = {"U235_wt_frac": [0.1] * (len(a["blocks"]) + 1)}
+            elif kind.startswith("matmod-"):
+                # the same modifier by block and/or by component; every list must have one entry per block
+                for bname in set(a["blocks"]):
+                    doc["blocks"][bname]["fuel"]["material"] = "UZr"
+                nbk = len(a["blocks"])
+                ok_col, long_col, short_col = [0.1] * nbk, [0.1] * (nbk + 1), [0.1] * max(nbk - 1, 0)
+                a["matmods"] = {
+                    "matmod-bycomponent-long": {"by component": {"fuel": {"U235_wt_frac": long_col}}},
+                    "matmod-bycomponent-short": {"by component": {"fuel": {"U235_wt_frac": short_col}}},
+                    "matmod-both-bycomponent-long": {"U235_wt_frac": ok_col, "by component": {"fuel": {"U235_wt_frac": long_col}}},
+                    "matmod-both-byblock-short": {"U235_wt_frac": short_col, "by component": {"fuel": {"U235_wt_frac": ok_col}}},
+                }[kind]
+                mmlens = [len(v) for k, v in a["matmods"].items() if k != "by component"] + \
+                         [len(v) for d in a["matmods"].get("by component", {}).values() for v in d.values()]
             elif kind == "duplicate-component":
                 mutate = "duplicate-component"
             elif kind == "cyclic-link":
@@ -1100,6 +1146,8 @@ def run_blueprints(ctx):
                 B.send(f"consistent {len(a['blocks'])} {len(a['height'])} {len(a['xs'])} {len(a['mesh'])}", "F" if refused else "T", {"tag": tag})
                 B.send("blocks [" + ",".join(tilde(x) for x in a["blocks"]) + "] " + common.ratlist(a["height"]) + " [" +
                        ",".join(a["xs"]) + "] [" + ",".join(str(x) for x in a["mesh"]) + "]", "reject" if refused else "accepted", {"tag": tag})
+            elif kind.startswith("matmod-"):
+                B.send(f"listsok {len(a['blocks'])} [" + ",".join(str(x) for x in mmlens) + "]", "F" if refused else "T", {"tag": tag})
             elif kind == "conflicting-mult":
                 pg, decl = conflict
                 B.send("mult [" + ",".join(f"{i}:{j}:{v}" for (i, j), v in pg["cells"].items()) + "] [1] " + str(decl),
